@@ -60,6 +60,27 @@ type Ctx struct {
 	open       map[string]string // open known findings of this property: key -> text
 	cliDir     string
 	start      time.Time
+	softLimit  time.Duration
+	expired    bool
+}
+
+// Expired reports whether the shard's soft time limit has passed; long loops
+// consult it and stop early (the run is then reported as inconclusive, never
+// as a violation).
+func (c *Ctx) Expired() bool {
+	if c.expired {
+		return true
+	}
+	if c.softLimit > 0 && time.Since(c.start) > c.softLimit {
+		c.expired = true
+		c.Ev.Note("soft time limit reached: exploration stopped early")
+		f, _ := os.OpenFile(filepath.Join(c.Scratch, fmt.Sprintf("harness-%d.txt", c.Shard)), os.O_APPEND|os.O_CREATE|os.O_WRONLY, 0o644)
+		if f != nil {
+			fmt.Fprintln(f, "soft time limit reached before the planned exploration finished")
+			f.Close()
+		}
+	}
+	return c.expired
 }
 
 type stopSub struct{}
@@ -88,6 +109,9 @@ func Main(t *testing.T, id string, body func(c *Ctx)) {
 		Root: os.Getenv("VERIF_ROOT"), Shard: envInt("VERIF_SHARD", 0), NShards: envInt("VERIF_NSHARDS", 1),
 		Ev: ev.New(), replayers: map[string]func(*Sub, *Replay){}, replayOnly: os.Getenv("VERIF_REPLAY"), start: time.Now()}
 	c.Thorough = c.Tier == "thorough"
+	if d, err := time.ParseDuration(os.Getenv("VERIF_SOFT_DEADLINE")); err == nil {
+		c.softLimit = d
+	}
 	seed, _ := strconv.ParseUint(os.Getenv("VERIF_SEED"), 10, 64)
 	if seed == 0 {
 		seed = 1
@@ -160,8 +184,14 @@ func (c *Ctx) Probe(key string, reproduces func() bool) {
 	}
 }
 
-// Mine reports whether enumeration index k belongs to this shard.
-func (c *Ctx) Mine(k int64) bool { return int(k%int64(c.NShards)) == c.Shard }
+// Mine reports whether enumeration index k belongs to this shard (and the
+// soft time limit has not passed).
+func (c *Ctx) Mine(k int64) bool {
+	if k&1023 == 0 && c.Expired() {
+		return false
+	}
+	return !c.expired && int(k%int64(c.NShards)) == c.Shard
+}
 
 // W returns the batch worker, starting it on first use.
 func (c *Ctx) W() *run.Worker {
@@ -259,6 +289,9 @@ func (c *Ctx) Rapid(name string, checks int, prop func(rt *rapid.T, s *Sub)) {
 		passed := int64(0)
 		defer func() { c.Ev.RapidPassed += passed }()
 		rapid.Check(t, func(rt *rapid.T) {
+			if c.Expired() {
+				return
+			}
 			s := &Sub{C: c, Name: name, T: t, rt: rt}
 			prop(rt, s)
 			if passed < int64(checks) {
